@@ -22,6 +22,7 @@
 #include <assert.h>
 #include <ctype.h>
 #include <errno.h>
+#include <limits.h>
 #include <stdbool.h>
 #include <stdio.h>
 #include <stdlib.h>
@@ -588,7 +589,7 @@ int _vnadata_load_npd(vnadata_internal_t *vdip, FILE *fp, const char *filename)
 		}
 		continue;
 	    }
-	    if (nss.nss_field_count != 1 + 2 * ports) {
+	    if (nss.nss_field_count != (size_t)1 + 2 * (size_t)ports) {
 		_vnadata_error(vdip, VNAERR_SYNTAX, "%s (line %d) error: "
 			"expected %d fields after z0",
 			nss.nss_filename, nss.nss_line,
@@ -674,6 +675,12 @@ int _vnadata_load_npd(vnadata_internal_t *vdip, FILE *fp, const char *filename)
      * the Z0 fields.
      */
     if (fz0) {
+	if (ports > (INT_MAX - 1) / 2) {
+	    _vnadata_error(vdip, VNAERR_SYNTAX, "%s (line %d) error: "
+		    "too many ports: %d",
+		    nss.nss_filename, nss.nss_line, ports);
+	    goto out;
+	}
 	n_fields += 2 * ports;
     }
 
@@ -684,7 +691,7 @@ int _vnadata_load_npd(vnadata_internal_t *vdip, FILE *fp, const char *filename)
 	const vnadata_format_descriptor_t *vfdp = &vdip->vdi_format_vector[i];
 	vnadata_parameter_type_t type;
 	int drows = ports, dcolumns = ports;
-	int fields = 2 * drows * dcolumns;
+	long long fields = 2LL * drows * dcolumns;
 	int quality = 0;
 
 	/*
@@ -704,7 +711,7 @@ int _vnadata_load_npd(vnadata_internal_t *vdip, FILE *fp, const char *filename)
 	case VPT_S:
 	    switch (vfdp->vfd_format) {
 	    case VNADATA_FORMAT_IL:
-		fields = ports * (ports - 1);
+		fields = (long long)ports * (ports - 1);
 		break;
 
 	    case VNADATA_FORMAT_RL:
@@ -739,7 +746,7 @@ int _vnadata_load_npd(vnadata_internal_t *vdip, FILE *fp, const char *filename)
 	case VPT_ZIN:
 	    drows = 1;
 	    dcolumns = ports;
-	    fields = 2 * ports;
+	    fields = 2LL * ports;
 	    break;
 
 	default:
@@ -794,7 +801,13 @@ int _vnadata_load_npd(vnadata_internal_t *vdip, FILE *fp, const char *filename)
 	    best_dcolumns = dcolumns;
 	    best_field = n_fields;
 	}
-	n_fields += fields;
+	if (fields > (long long)(INT_MAX - n_fields)) {
+	    _vnadata_error(vdip, VNAERR_SYNTAX, "%s (line %d) error: "
+		    "too many ports: %d",
+		    nss.nss_filename, nss.nss_line, ports);
+	    goto out;
+	}
+	n_fields += (int)fields;
     }
     if (best_vfdp == NULL) {
 	_vnadata_error(vdip, VNAERR_SYNTAX, "%s (line %d) error: "
